@@ -46,16 +46,16 @@ GenStruct == \E n \in NSet : \E base \in Bases(n), j \in 1..n, i \in 1..n, w \in
                /\ (w = "row" => i # j)
                /\ kind' = "plu_sing" /\ nn' = n /\ aux' = 0
                /\ mat' = MatR(n, LAMBDA r, c : RQ(IF w = "col" THEN (IF c = j THEN 0 ELSE base[<<r, c>>]) ELSE (IF r = i THEN base[<<j, c>>] ELSE base[<<r, c>>])))
-\* a few order-5 instances from fixed patterns (loops over more rows than the enumerated orders reach)
-PatF(v) == [pr \in StrictLower(5) |-> ((pr[1] + 2 * pr[2] + v) % 3) - 1]
-PatG(v) == [pr \in StrictUpper(5) |-> (pr[1] * pr[2] + v) % 2]
-PatD(v) == [k \in 1..5 |-> IF (k + v) % 2 = 0 THEN -2 ELSE 1]
-PatP(v) == IF v = 0 THEN [k \in 1..5 |-> 6 - k] ELSE [k \in 1..5 |-> (k % 5) + 1]
-GenBig == \E v \in {0, 1}, w \in {"plu", "ldl", "llt"} :
-            /\ kind' = w /\ nn' = 5 /\ aux' = 0
-            /\ mat' = CASE w = "plu" -> PermT(5, PatP(v), MulR(MkL(5, PatF(v)), MkU(5, PatD(v), PatG(v)), 5))
-                         [] w = "ldl" -> LET Lm == MkL(5, PatF(v)) IN MulR(MulR(Lm, MkD(5, PatD(v)), 5), TrR(Lm, 5), 5)
-                         [] OTHER -> LET Mm == MkM(5, [k \in 1..5 |-> IF (k + v) % 2 = 0 THEN 2 ELSE 1], PatF(v)) IN MulR(Mm, TrR(Mm, 5), 5)
+\* a few larger instances from fixed patterns (loops over more rows than the enumerated orders reach; unrolled inner loops)
+PatF(m, v) == [pr \in StrictLower(m) |-> IF m > 5 /\ pr[1] - pr[2] > 2 THEN 0 ELSE ((pr[1] + 2 * pr[2] + v) % 3) - 1]
+PatG(m, v) == [pr \in StrictUpper(m) |-> IF m > 5 /\ pr[2] - pr[1] > 2 THEN 0 ELSE (pr[1] * pr[2] + v) % 2]
+PatD(m, v) == [k \in 1..m |-> IF (k + v) % 2 = 0 THEN -2 ELSE 1]
+PatP(m, v) == IF v = 0 THEN [k \in 1..m |-> m + 1 - k] ELSE [k \in 1..m |-> (k % m) + 1]
+GenBig == \E m \in {5, 10}, v \in {0, 1}, w \in {"plu", "ldl", "llt"} :
+            /\ kind' = w /\ nn' = m /\ aux' = 0
+            /\ mat' = CASE w = "plu" -> PermT(m, PatP(m, v), MulR(MkL(m, PatF(m, v)), MkU(m, PatD(m, v), PatG(m, v)), m))
+                         [] w = "ldl" -> LET Lm == MkL(m, PatF(m, v)) IN MulR(MulR(Lm, MkD(m, PatD(m, v)), m), TrR(Lm, m), m)
+                         [] OTHER -> LET Mm == MkM(m, [k \in 1..m |-> IF (k + v) % 2 = 0 THEN 2 ELSE 1], PatF(m, v)) IN MulR(Mm, TrR(Mm, m), m)
 Next == kind = "none" /\ (GenPlu \/ GenLdl \/ GenLlt \/ GenStruct \/ GenBig)
 KCode(k) == CASE k = "plu" -> 1 [] k = "plu_sing" -> 2 [] k = "ldl" -> 3 [] k = "ldl_sing" -> 4 [] k = "llt" -> 5 [] k = "llt_fail" -> 6
 Flat(M) == [k \in 1..(2 * Len(M)) |-> M[(k + 1) \div 2][IF k % 2 = 1 THEN 1 ELSE 2]]
